@@ -192,6 +192,10 @@ def gen_decode_case(rng, depth=None, unknown_p=0.3, big_p=0.0, split_p=0.25, cor
         hs.insert(rng.below(len(hs) + 1), (gen.randcase(rng, b"Content-Length"), rng.pick([b"999", b"0", str(len(body)).encode()])))
     if rng.chance(1, 2):
         hs.append((b"X-After", b"3"))
+    for _ in range(rng.below(3) if rng.chance(1, 2) else 0):
+        hs.insert(rng.below(len(hs) + 1), rng.pick([(b"Transfer-Encoding", b"foobar"), (b"Transfer-Encoding", b"chunked"), (b"Content-Type", b"text/plain"),
+                                                     (b"Trailer", b"X-T"), (b"Content-MD5", b"abc=="), (b"Host", b"h"), (b"Content-Range", b"bytes 0-1/2"),
+                                                     (b"content-type", b"application/gzip"), (b"Vary", b"Accept-Encoding"), (b"ETag", b"\"x\"")]))
     info = {"data": data, "depth": depth, "layers": layers, "all_toks": all_toks, "keep": keep, "undone": undone,
             "expected_out": expected_out, "corrupt": False, "stages": stages}
     if rng.random() < corrupt_p and depth >= 1:
@@ -282,6 +286,20 @@ class C13:
             g = Group("d%d" % k, "stack-%d" % info["depth"], {"headers": [[a.hex(), b.hex()] for a, b in hs], "data": info["data"].hex() if len(info["data"]) < 3000 else None,
                                                                "data_len": len(info["data"]), "data_crc": zlib.crc32(info["data"]), "layers": [str(l) for l in info["layers"]]})
             g.add("decode", "DECODE %d %s %s" % (tree, hdrs_field(hs), hx(body)))
+            groups.append(g)
+        # bodies just above 10 000 000 bytes (the crate's documented default message size limit) and above 2^24:
+        # decoded by the implementation only (the model is not run on 20 MB of hex); oracle = length and CRC-32
+        for j, (size, kinds) in enumerate([(10_000_001, ["gzip"]), (10_000_001, ["zlib"]), (10_000_001, ["raw", "gzip"])] if tier == "quick" else
+                                          [(10_000_001, ["gzip"]), (10_000_001, ["zlib"]), (10_000_001, ["raw", "gzip"]), (16_777_217, ["gzip", "zlib"]), (10_000_000, ["raw"])]):
+            data = (b"0123456789abcdef" * 4096)[:65521] * (size // 65521 + 1)
+            data = data[:size]
+            enc = data
+            for kd in kinds:
+                d = raw_deflate(enc, 6)
+                enc = d if kd == "raw" else (zlib_wrap(d, enc) if kd == "zlib" else gzip_wrap(d, enc)[0])
+            hs = [(b"Content-Encoding", b", ".join(TOKEN_OF[kd] for kd in kinds))]
+            g = Group("big%d" % j, "huge-body", {"headers": [[a.hex(), b.hex()] for a, b in hs], "data": None, "data_len": len(data), "data_crc": zlib.crc32(data), "layers": ["%s of %d bytes" % ("+".join(kinds), size)]})
+            g.add("decode", "DECODE %d %s %s" % (tree, hdrs_field(hs), hx(enc)), {"nocmp": True})
             groups.append(g)
         # every level x every strategy on one body, each container
         base = b"Hello, hello, hello world! " * 20 + gen.rand_bytes(rng, 64)
@@ -408,6 +426,24 @@ class C15:
                 c = rng.below(len(enc))
                 outer, _ = encode_layer(rng, "gzip", enc[:c])
                 g.add("truncated-inner", "DECODE %d %s %s" % (tree, hdrs_field([(b"Content-Encoding", tok + b", gzip")]), hx(outer)), {"cut": c})
+            groups.append(g)
+        # the overlap of the two `deflate` formats: a level-0 zlib stream `78 01 | 01 FE FE 01 01 | content | adler`
+        # read as bare deflate is a stored block of 257 bytes followed by whatever content[255..] spells
+        for k2 in range(n_for(tier, 1, 6)):
+            content = gen.rand_bytes(rng, 255) + b"\x01\x00\x00\xff\xff" + gen.rand_bytes(rng, 65278 - 260, b"abcdefgh \n")
+            enc = zlib_wrap(stored_deflate(content, 65278), content, 0x78, 0)
+            hs = [(b"Content-Encoding", b"deflate")]
+            g = Group("ov%d" % k2, "damage-zlib", {"kind": "zlib", "data": content.hex(), "enc": enc.hex(), "layer": "zlib level 0, one stored block of 0xFEFE bytes that also reads as bare deflate", "hlen": None})
+            g.add("intact", "DECODE %d %s %s" % (tree, hdrs_field(hs), hx(enc)))
+            for c in [len(enc) - 1, len(enc) - 2, len(enc) - 4, len(enc) - 5, 267, 300, 1000 + rng.below(60000)]:
+                g.add("truncated", "DECODE %d %s %s" % (tree, hdrs_field(hs), hx(enc[:c])), {"cut": c})
+            for pos in range(len(enc) - 4, len(enc)):
+                g.add("field", "DECODE %d %s %s" % (tree, hdrs_field(hs), hx(enc[:pos] + bytes([enc[pos] ^ 0x55]) + enc[pos + 1:])), {"pos": pos, "v": enc[pos] ^ 0x55})
+            for _ in range(6):
+                b = (270 + rng.below(len(enc) - 280)) * 8 + rng.below(8)
+                e2 = bytearray(enc)
+                e2[b // 8] ^= 1 << (b % 8)
+                g.add("bitflip", "DECODE %d %s %s" % (tree, hdrs_field(hs), hx(bytes(e2))), {"bit": b})
             groups.append(g)
         return groups
 
@@ -592,6 +628,16 @@ class C16:
             g = Group("x%d" % k, "text", {"headers": [[a.hex(), b.hex()] for a, b in hs], "body": body.hex()})
             g.add("text", "TEXT %s %s" % (hdrs_field(hs), hx(body)))
             groups.append(g)
+        for k in range(n // 20):
+            # the same body under a known label, an unknown label, the unknown label again, another known label ...
+            body = rng.pick(VALID_UTF8[1:]) + rng.pick([b"", b"\xe9", b"caf\xc3\xa9"])
+            labels = [rng.pick(UTF8_LABELS + LATIN1_LABELS), rng.pick(UNKNOWN_LABELS[:2] + UNKNOWN_LABELS[4:6])]
+            seq = [labels[0], labels[1], gen.randcase(rng, labels[1]), labels[1], rng.pick(UTF8_LABELS + LATIN1_LABELS), labels[1], b""]
+            for j, lab in enumerate(seq):
+                hs = [(b"Content-Type", b"text/plain; charset=" + lab)] if lab else [(b"Content-Type", b"text/plain")]
+                g = Group("q%d_%d" % (k, j), "text-sequence", {"headers": [[a.hex(), b.hex()] for a, b in hs], "body": body.hex()})
+                g.add("text", "TEXT %s %s" % (hdrs_field(hs), hx(body)))
+                groups.append(g)
         return groups
 
     @staticmethod
